@@ -34,11 +34,19 @@ var timestamp = func() int64 { return time.Now().UnixNano() }
 type subscription struct {
 	mu     sync.Mutex
 	closed chan struct{}
+	status *status.Status // Status the subscription was closed with, if any
 	msgs   chan *client.Message
 	errors chan *status.Status
 }
 
 func (s *subscription) Close() {
+	s.CloseWithStatus(nil)
+}
+
+// CloseWithStatus closes the subscription such that the subscriber's stream is
+// ended with the given status rather than normally. It has no effect if the
+// subscription is already closed.
+func (s *subscription) CloseWithStatus(st *status.Status) {
 	s.mu.Lock()
 	defer s.mu.Unlock()
 	select {
@@ -46,7 +54,16 @@ func (s *subscription) Close() {
 		return
 	default:
 	}
+	s.status = st
 	close(s.closed)
+}
+
+// Status returns the status the subscription was closed with or nil if it was
+// closed normally or is not closed.
+func (s *subscription) Status() *status.Status {
+	s.mu.Lock()
+	defer s.mu.Unlock()
+	return s.status
 }
 
 func (s *subscription) Messages() <-chan *client.Message {
@@ -621,6 +638,23 @@ func (p *partition) removeGroupSubscriber(groupID string, sub *subscription) {
 	}
 }
 
+// cancelGroupSubscribers cancels the consumer group subscriptions on the
+// partition. Only the partition leader ensures a single member of a group is
+// subscribed, so these must not outlive the server's leadership. Subscribers
+// receive the same status as when the leader goes away, which causes clients
+// to resubscribe to the new leader.
+func (p *partition) cancelGroupSubscribers() {
+	p.consumersMu.Lock()
+	defer p.consumersMu.Unlock()
+	for groupID, member := range p.consumers {
+		p.srv.logger.Debugf("Canceling group %s consumer %s for partition %s: "+
+			"server no longer partition leader", groupID, member.consumerID, p)
+		member.sub.CloseWithStatus(
+			status.New(codes.Unavailable, "Server no longer partition leader"))
+		delete(p.consumers, groupID)
+	}
+}
+
 func (p *partition) getStartOffset(req *client.SubscribeRequest) (int64, *status.Status) {
 	var startOffset int64
 	switch req.StartPosition {
@@ -997,6 +1031,9 @@ func (p *partition) stopLeading() error {
 // becomeFollower is called when the server has become a follower for this
 // partition.
 func (p *partition) becomeFollower() error {
+	// Consumer groups are only served by the partition leader.
+	p.cancelGroupSubscribers()
+
 	if err := p.stopLeadingOrFollowing(); err != nil {
 		return err
 	}
